@@ -386,9 +386,9 @@ class World:
                 if self.net.pending:        # only starved replies are left: deliver the first
                     held[id(self.net.pending[0][0])] = tick
                     continue
-                if len(self.ledger._update_tasks) == 0:
-                    return True
-                raise MachineryError('update tasks alive but nothing can run')
+                # nothing queued, nothing pending, no notification left: every task is finished (or blocked for good, which
+                # shows up as non-convergence) - no private attribute of the ledger is consulted
+                return True
             c = rng.choice(choices)
             if c == 'add':
                 adds -= 1
@@ -453,8 +453,7 @@ def one_world(ctx, k, rng):
     w = World(ctx, k, rng, gap)
     evs = []
     try:
-        with w.loop:
-            w.ledger._update_tasks.add(w.ledger.subscribe_accounts())
+        w.loop.spawn(w.ledger.subscribe_accounts())
         w.run_to_quiescence()
         stages = rng.choice([2, 3, 4])
         for _ in range(stages):
